@@ -119,15 +119,22 @@ def _ab_shape(t, head, amax, bmax):
     cv = R.env_int("VP_CV")
     if cv is not None and (la < 1 or R.cls_of(t[2], _VC) != cv):
         return False
+    cv = R.env_int("VP_CV1")
+    if cv is not None and (la < 2 or R.cls_of(t[3], _VC) != cv):
+        return False
     return _none_of(t, k + 1, " ") and _none_of(t, 2, "/")
 
 
-def _ab_cells(pairs, split_a_from=None, split_b_from=99):
+def _ab_cells(pairs, split_a_from=None, split_b_from=99, split2_a_from=99):
     """one cell per (len a, len b) pair; cells with len(a) >= split_a_from or len(b) >= split_b_from (and a non-empty)
-    are split by the class of a[0]"""
+    are split by the class of a[0]; cells with len(a) >= split2_a_from by the classes of a[0] and a[1]"""
     out = []
     for la, lb in pairs:
-        if la >= 1 and ((split_a_from is not None and la >= split_a_from) or lb >= split_b_from):
+        if la >= max(2, split2_a_from):
+            for i in range(NVC):
+                for j in range(NVC):
+                    out.append({"VP_LV": la, "VP_LU": lb, "VP_CV": i, "VP_CV1": j})
+        elif la >= 1 and ((split_a_from is not None and la >= split_a_from) or lb >= split_b_from):
             for i in range(NVC):
                 out.append({"VP_LV": la, "VP_LU": lb, "VP_CV": i})
         else:
@@ -341,8 +348,9 @@ HARNESSES = [
         quick=R.tier(cells=_ab_cells(_grid(0, 2, 2), split_a_from=2), timeout=300,
                      bound="tag `C/<v> <u>` on MINI_U (real timeUnits, modifiers pruned to milli, kilo, m, M), printable "
                            "ASCII without '/', u blank-free: len(v) <= 2, 1 <= len(u) <= 2"),
-        thorough=R.tier(cells=_ab_cells(_grid(0, 3, 4), split_a_from=1), timeout=1500, path_timeout=60,
-                        bound="same, len(v) <= 3, 1 <= len(u) <= 4"),
+        thorough=R.tier(cells=_ab_cells(_grid(0, 2, 4) + [(3, 1), (3, 2)], split_a_from=1, split2_a_from=3),
+                        timeout=1500, path_timeout=60,
+                        bound="same: len(v) <= 2 and 1 <= len(u) <= 4, or len(v) == 3 and 1 <= len(u) <= 2"),
         what="agreement of validation, conversion and reference on number text x unit text: validate_units reports no "
              "error <=> v is a number (N1) and u spells a unit; no recognised unit => an error is reported (UNITS_INVALID "
              "when v is a number) and value_as_default_unit returns None without raising; accepted => "
@@ -353,8 +361,8 @@ HARNESSES = [
                      bound="tag `M/<a> <b>` on MINI_U (M/# takes the real currencyUnits: $ {unitPrefix}, dollar, euro, "
                            "point), printable ASCII without '/', b blank-free: 1 <= len(a) <= 2 and 1 <= len(b) <= 2, or "
                            "len(a) == 1 and len(b) == 4"),
-        thorough=R.tier(cells=_ab_cells(_grid(1, 3, 2) + [(1, 4), (1, 5), (1, 6), (2, 4)], split_a_from=1), timeout=1500,
-                        path_timeout=60,
+        thorough=R.tier(cells=_ab_cells(_grid(1, 3, 2) + [(1, 4), (1, 5), (1, 6), (2, 4)], split_a_from=1,
+                                        split2_a_from=3), timeout=1500, path_timeout=60,
                         bound="same: 1 <= len(a) <= 3 and 1 <= len(b) <= 2, or (len a, len b) in (1,4),(1,5),(1,6),(2,4)"),
         what="same agreement where the unit class has a prefix unit: accepted <=> (a is a number and b spells a unit "
              "written behind the number) or (a spells a unitPrefix unit and b is a number); `3 $` and `dollar 3` are "
